@@ -5,6 +5,7 @@ import (
 	"fmt"
 	"os"
 	"os/exec"
+	"path/filepath"
 	"runtime/debug"
 	"strings"
 	"time"
@@ -132,7 +133,9 @@ func lethalInChild(r *engine.Run, key string) ([]string, string) {
 	if err != nil {
 		return []string{"harness: " + err.Error()}, "harness"
 	}
-	out, err := os.CreateTemp("", "c16-lethal-*.json")
+	dir := filepath.Join(engine.VerifDir(), ".work", "C16-lethal")
+	os.MkdirAll(dir, 0o755)
+	out, err := os.CreateTemp(dir, "case-*.json")
 	if err != nil {
 		return []string{"harness: " + err.Error()}, "harness"
 	}
